@@ -206,6 +206,16 @@ func runC03(ctx *Ctx) *Report {
 				c = newCase("rootf")
 				c.Tree, c.Format, c.Alias = enc, []string{"json", "yaml", "toml"}[i%3], alias
 				cases = append(cases, c)
+				// mkdir / verify through both names of the From-Root entry point, with the options they take
+				// (target directory, extensions, strict): pre-populated so that the options matter
+				c = newCase("mkdir")
+				c.FromRoot, c.Tree, c.Alias, c.Target, c.Exts = true, enc, alias, "sub/t", []string{".go", "b"}
+				c.Dry = i%5 == 0
+				cases = append(cases, c)
+				c = newCase("verify")
+				c.FromRoot, c.Tree, c.Alias, c.Target, c.Strict = true, enc, alias, "t", i%2 == 0
+				c.Pre = []FSEntry{{Path: "t", Kind: "d"}, {Path: "t/r", Kind: "d"}, {Path: "t/r/a", Kind: "d"}, {Path: "t/r/zz-extra", Kind: "f1"}, {Path: "r", Kind: "d"}, {Path: "r/a", Kind: "d"}, {Path: "r/b", Kind: "d"}}
+				cases = append(cases, c)
 			}
 		}
 	}
@@ -216,7 +226,7 @@ func runC03(ctx *Ctx) *Report {
 	if ctx.Thorough {
 		nprog = 30000
 	}
-	names := []string{"a", "b", "c", "x.go", "- d", "e f", "a", "b", "..", "x/y"}
+	names := []string{"a", "b", "c", "x.go", "- d", "e f", "a", "b", "..", "x/y", "A", "X.go"}
 	spellings := coveringSpellings()
 	for k := 0; k < nprog; k++ {
 		c := relC03{Kind: "c03-rel", Root: "root", Fmt: formats[k%len(formats)], Sp: spellings[k%len(spellings)]}
@@ -228,6 +238,25 @@ func runC03(ctx *Ctx) *Report {
 			c.Ops = append(c.Ops, addOp{Parent: ctx.Rng.Intn(j + 1), Name: names[ctx.Rng.Intn(len(names))]})
 		}
 		rels = append(rels, c)
+	}
+	// wide parents: many distinct children under one node, then Adds of names that exist already (early,
+	// middle, late ones) with a grandchild hung under what Add returned
+	for wi, width := range []int{8, 15, 16, 17, 18, 24, 33, 64, 130} {
+		for _, again := range []int{0, width / 2, width - 2, width - 1} {
+			c := relC03{Kind: "c03-rel", Root: "root", Fmt: formats[wi%len(formats)], Sp: spellings[(wi+again)%len(spellings)]}
+			par := 0
+			if wi%2 == 1 {
+				c.Ops = append(c.Ops, addOp{Parent: 0, Name: "deep"})
+				par = 1
+			}
+			for j := 0; j < width; j++ {
+				c.Ops = append(c.Ops, addOp{Parent: par, Name: "k" + fmtInt(j)})
+			}
+			c.Ops = append(c.Ops, addOp{Parent: par, Name: "k" + fmtInt(again)})
+			c.Ops = append(c.Ops, addOp{Parent: par + 1 + again, Name: "under"})
+			c.Ops = append(c.Ops, addOp{Parent: par, Name: "k" + fmtInt(again)})
+			rels = append(rels, c)
+		}
 	}
 	parallel(rels, ctx.Workers, func(m *Model, c relC03) {
 		diffs := runRelC03(m, c)
